@@ -161,7 +161,11 @@ class RelativeURIResolver(BaseHTMLProcessor):
         attrs = [
             (
                 key,
-                ((tag, key) in self.relative_uris) and self.resolve_uri(value) or value,
+                (
+                    self.resolve_uri(value)
+                    if (tag, key) in self.relative_uris
+                    else value
+                ),
             )
             for key, value in attrs
         ]
